@@ -72,6 +72,8 @@ def seeded_table():
         if ok and own:
             c += 1
         needs = m.get("needs") or _needs(m.get("notes", ""))
+        if m.get("superseded"):
+            parts.append("(superseded: unreachable since fix F25)")
         if m.get("first_runs") is not None:
             fr = [x for x in m["first_runs"] if x["check"] == m["property"]]
             first = "first run: " + ("caught" if any(x["caught"] for x in fr) else "missed")
